@@ -14,7 +14,8 @@ import genmodel
 # and - because the side effect belongs to the evaluation, not to one of its outcomes - before
 # control can leave the evaluation along one branch only.
 
-PURGES = ("purge_deferred_plusplus", "purge_deferred_plusplus_and_savey", "purge_alternative_plusplus")
+PURGES = ("purge_deferred_plusplus_since", "purge_deferred_plusplus_and_savey", "purge_alternative_plusplus")
+FULL_EXPRESSION_ENDS = ("generate_statement", "generate_for_loop", "generate_return", "purge_deferred_plusplus_and_savey")
 BRANCHES = {"JMP", "JSR", "BEQ", "BNE", "BCC", "BCS", "BMI", "BPL", "BVC", "BVS"}
 LEAVING_CALLS = ("label", "push_code", "generate_condition_ex", "generate_condition_16bits",
                  "generate_branch_instruction", "generate_branch_instruction_alt")
@@ -180,6 +181,44 @@ def t_seq_point(facts, res, tier):
         t = expr_text(f["body"])
         if "deferred_plusplus" not in t and not any(_self_call(x, PURGES) for x in walk(f["body"])):
             raise AnchorMissing("%s does not touch deferred_plusplus" % f["name"])
+    # (scope) a sequence point inside an expression completes its own operands only
+    from scopes import scoped as _scoped
+    for f in fns:
+        if not any(_self_call(x, PURGES) for x in walk(f["body"])):
+            continue
+        for node, env, doms in _scoped(f):
+            if not _self_call(node, PURGES):
+                continue
+            whole = node["method"] == "purge_deferred_plusplus_and_savey"
+            mark = None
+            if node["method"] != "purge_deferred_plusplus_and_savey":
+                a = node["args"][0] if node.get("args") else {}
+                if a.get("k") == "lit" and str(a.get("v")) == "0":
+                    whole = True
+                elif a.get("k") == "path" and len(a["segs"]) == 1:
+                    b = env.get(a["segs"][0])
+                    if b is not None and b.src == "param":
+                        mark = "parameter %s" % b.name
+                    elif b is not None and b.src == "let" and b.init is not None and expr_text(b.init).replace(" ", "") == "self.deferred_plusplus.len()":
+                        mark = "length taken in %s" % f["name"]
+            key = "T-SEQ-POINT:scope:%s:%s" % (f["name"], node["method"])
+            res.inst(key, True, {"function": f["name"], "purge": node["method"], "applies": "the whole list" if whole else (mark or "?")})
+            if whole and f["name"] not in FULL_EXPRESSION_ENDS:
+                res.fail(key, facts.where(f, node), "%s applies the whole list of pending ++/-- although it is not the end of a full expression: the entries of the enclosing expression are applied before the operands they belong to have been read (`r = j++ + f(1)` adds the incremented j)" % f["name"])
+            if not whole and mark is None:
+                res.fail(key, facts.where(f, node), "%s purges from a mark that is neither a parameter nor the length of the list taken in this function" % f["name"])
+            if not whole and mark and mark.startswith("length"):
+                # the mark is taken before the operands it closes are evaluated
+                b = env[node["args"][0]["segs"][0]]
+                def line(n):
+                    try:
+                        return int(str(n.get("loc", "0:0")).split(":")[0])
+                    except ValueError:
+                        return 0
+                let_line = min([line(x) for x in walk(f["body"]) if x.get("k") == "let" and x.get("init") is b.init] or [0])
+                evals = [line(x) for x in walk(f["body"]) if _self_call(x, ("generate_expr", "generate_condition", "generate_simple_condition")) and let_line < line(x) <= line(node)]
+                if not evals:
+                    res.fail(key + ":mark", facts.where(f, node), "%s takes the mark of its purge after the operands were evaluated: nothing they left pending is applied" % f["name"])
     # who queues: generate_expr only
     for f in fns:
         for x in walk(f["body"]):
@@ -244,7 +283,7 @@ def t_seq_point(facts, res, tier):
             if r is None or r[0] == "purge":
                 res.inst(base + ":leave", True, {"function": f["name"], "expression": arg, "then": r[2] if r else "nothing that leaves"})
                 # leaving the *function*: the Y register saved for an index (saved_y) is restored as well
-                if r is not None and r[2] != "purge_deferred_plusplus_and_savey":
+                if r is not None and r[2] != "purge_deferred_plusplus_and_savey":  # (the whole list and the saved Y)
                     exits = [x for s2 in _after(r[1], par) for x in walk(s2) if _function_exit(x)]
                     if exits:
                         res.fail(base + ":leave:saved-y", facts.where(f, exits[0]),
@@ -868,3 +907,80 @@ def t_mutex_guard(facts, res, tier):
                         if locks.count(mm) > 1:
                             res.fail("T-MUTEX-GUARD:%s:%s:statement" % (fn["name"], mm), facts.where(fn, st), "%s locks `%s` twice in one statement: the first temporary guard lives to the end of the statement" % (fn["name"], mm))
     res.note("%d lock sites" % n)
+
+
+# ----------------------------------------------------------------------------- C01 / C04 / C17 (per-declarator state)
+
+
+def _struct_lits(node, names):
+    return [x for x in walk(node) if x.get("k") == "struct" and x["segs"][-1] in names]
+
+
+@rule("T-DECLARATOR-STATE", floor=3,
+      text="the attributes of one declared variable or parameter (type, constness, signedness, memory class, ..) are collected in locals and end in a "
+           "`Variable {..}` literal.  In every loop whose iterations each build such a literal, a local that is assigned in the part of the iteration "
+           "that builds the literal (the whole loop body, or - when the body dispatches on the kind of parse pair - the match arm holding the literal) "
+           "is declared in that part too: a local declared further out keeps what one declarator or parameter set for the next one "
+           "(`f(short a, char b)` made b signed; `superchip char * const p = 0x1000, q;` took q out of the extra RAM).  Locals that only *count* "
+           "(`+=`, push, insert) are not attributes and are not judged")
+def t_declarator_state(facts, res, tier):
+    n = 0
+    for fn in facts.fns:
+        if fn.get("test") or not fn["file"].endswith("compile.rs"):
+            continue
+        lits = _struct_lits(fn["body"], ("Variable",))
+        if not lits:
+            continue
+        par = _parents(fn["body"])
+        # where every local is declared
+        for lit in lits:
+            # innermost enclosing `for`
+            q = lit
+            loop = None
+            chain = []
+            while q is not None:
+                chain.append(q)
+                pq, kq, iq = par.get(id(q), (None, None, None))
+                if pq is not None and pq.get("k") == "for" and kq == "body":
+                    loop = pq
+                    break
+                q = pq
+            if loop is None:
+                continue
+            # the per-item region: the arm of the body's top-level match that holds the literal, else the body
+            region = loop["body"]
+            lv = scopes_pat_names(loop.get("pat"))
+            for st0 in region.get("stmts") or []:
+                m0 = st0
+                while isinstance(m0, dict) and m0.get("k") in ("try", "paren"):
+                    m0 = m0["e"]
+                if isinstance(m0, dict) and m0.get("k") == "match" and any(("%s.as_rule()" % v) in expr_text(m0["e"]).replace(" ", "") for v in lv):
+                    for arm in m0["arms"]:
+                        if any(x is lit for x in walk(arm["body"])):
+                            region = arm["body"]
+            declared_in = {x["pat"]["name"] for x in walk(region) if x.get("k") == "let" and x["pat"].get("k") == "ident"}
+            for x in walk(region):
+                if x.get("k") == "closure":
+                    continue
+                for b in ([x] if x.get("k") == "for" else []):
+                    for bb in scopes_pat_names(b.get("pat")):
+                        declared_in.add(bb)
+            declared_in |= {nm for x in walk(region) if x.get("k") in ("match",) for a in x["arms"] for nm in scopes_pat_names(a["pat"])}
+            declared_in |= {nm for x in walk(region) if x.get("k") == "letcond" for nm in scopes_pat_names(x.get("pat"))}
+            n += 1
+            key0 = "T-DECLARATOR-STATE:%s" % fn["name"]
+            leaks = {}
+            for x in walk(region):
+                if x.get("k") == "assign" and x["l"].get("k") == "path" and len(x["l"]["segs"]) == 1 and x.get("op", "=") in ("=", None):
+                    nm = x["l"]["segs"][0]
+                    if nm not in declared_in:
+                        leaks.setdefault(nm, x)
+            res.inst("%s:%s" % (key0, expr_text(loop.get("iter") or {})[:30]), True, {"function": fn["name"], "loop_over": expr_text(loop.get("iter") or {})[:40], "locals_of_the_item": len(declared_in), "assigned_from_outside": sorted(leaks)})
+            for nm, x in sorted(leaks.items()):
+                res.fail("%s:%s" % (key0, nm), facts.where(fn, x), "%s assigns `%s` while it builds one variable of a list, but `%s` is declared outside the loop over the list: what one declarator / parameter sets is still set for the next" % (fn["name"], nm, nm))
+    res.note("%d per-item loops" % n)
+
+
+def scopes_pat_names(p):
+    from scopes import pat_bindings
+    return [b.name for b in pat_bindings(p, "pat")] if isinstance(p, dict) else []
